@@ -26,6 +26,8 @@ type Observed struct {
 type RunOpts struct {
 	WAF   coraza.WAF                 // reuse this WAF instead of compiling the scenario (long-lived WAF runs)
 	Hooks func(tx types.Transaction) // called right after NewTransaction (install per-tx hooks)
+	// Finish is called after ProcessLogging and projection, before Close.
+	Finish func(tx types.Transaction, out *Outcome)
 }
 
 func toIntr(it *types.Interruption) Intr {
@@ -115,6 +117,9 @@ func Run(s *Scen, opts RunOpts) (obs Observed) {
 		}
 		tx.ProcessLogging()
 		obs.Out = Project(tx)
+		if opts.Finish != nil {
+			opts.Finish(tx, &obs.Out)
+		}
 	}()
 	select {
 	case <-done:
@@ -141,7 +146,7 @@ func Project(tx types.Transaction) Outcome {
 			if md.Variable() != variables.Unknown {
 				v = md.Variable().Name()
 			}
-			mds = append(mds, Datum{Var: v, Key: Bytes(md.Key()), Val: Bytes(md.Value())})
+			mds = append(mds, Datum{Var: v, Key: Bytes(md.Key()), Val: Bytes(md.Value()), Lvl: md.ChainLevel()})
 		}
 		o.MD = append(o.MD, mds)
 	}
